@@ -166,14 +166,20 @@ class _UserQueue(object):
         return len(self.items)
 
 
-class _IndQueue(_queue.Queue):
-    def __init__(self, sim):
-        _queue.Queue.__init__(self)
-        self._sim = sim
+def _watch_indications(sim, q):
+    """The provider keeps the indication queue it created itself; put() is observed, and made non-blocking:
+    the local user of these scenarios fetches nothing, so a put() that would wait for it waits forever."""
+    real_put = q.put
 
-    def put(self, item, *a, **kw):
-        self._sim.log.append(('ind', item))
-        _queue.Queue.put(self, item, *a, **kw)
+    def put(item, block=True, timeout=None):
+        sim.log.append(('ind', item))
+        try:
+            real_put(item, False)
+        except _queue.Full:
+            raise Hang('provider thread blocked in to_service_user.put() with %d indications not yet fetched by the '
+                       'local user' % q.qsize())
+    q.put = put
+    return q
 
 
 class Sim(object):
@@ -360,7 +366,7 @@ class Sim(object):
         sock = self.sock if self.role == 'acceptor' else None
         p = SimProvider(self.store_in_file, self.get_file_cb, sock, self.max_pdu)
         p.from_service_user = _UserQueue(self)
-        p.to_service_user = _IndQueue(self)
+        _watch_indications(self, p.to_service_user)
         if self.accepted_contexts is not None:
             p.accepted_contexts = self.accepted_contexts
         self.provider = p
